@@ -399,7 +399,8 @@ def is_nullable(
     if resolved_type_params is None:
         resolved_type_params = {}
     for _ in range(100):  # a recursive alias must not loop forever
-        typ = resolved_type_params.get(typ, typ)
+        if is_hashable(typ):
+            typ = resolved_type_params.get(typ, typ)
         if is_annotated(typ):
             typ = get_type_origin(typ)
         elif is_new_type(typ):
